@@ -9,38 +9,69 @@ HARNESS_BIN = "c13"
 NCASES = {"quick": 12000, "thorough": 200000}
 CASE_TIMEOUT = {"quick": 30, "thorough": 120}
 
-LEVEL_TEXT = ("Machine-checked Coq theorems over a value-level model of dashu's modular arithmetic with the representation invariant "
-              "raw = (x mod m) * 2^shift: construction of the ring, reduce for every size class and sign, + - * neg dbl sqr, the two "
-              "exponentiation algorithms (binary method word by word; sliding window with a table of odd powers - proved generically "
-              "for any carrier with a multiplication, for every window length), inverse and division, ring identity, and the "
-              "num_modular::Reducer implementation. Every call into num-modular is shown to meet that function's precondition. "
-              "The model is tied to the code by a correspondence run against the OCaml extraction of specification and model.")
-LEVEL_NOTE = ("Trusted: Coq kernel, extraction (FastZ.v directives), zarith, harness. Multi-word kernels called by the modular code "
-              "(mul::multiply, sqr::sqr, div::div_rem_in_place, fast_rem_by_normalized_*, gcd_ext_*) and num-modular's div_rem_2by1 / "
-              "div_rem_3by2 / invm enter by contract (value-level meaning); word-list layout is not modelled (values only).")
-TECHNIQUE = "Coq proof of a value-level as-is model (representation invariant, generic windowed exponentiation) + extracted-spec correspondence run"
+LEVEL_TEXT = ("Machine-checked Coq theorems (56 pinned) at three levels. (1) Value level, every word size >= 2, every modulus >= 1, all "
+              "integers: construction of the ring, reduce for every size class and sign, + - * neg dbl sqr ==, the two exponentiation "
+              "algorithms (binary method word by word; sliding window with a table of odd powers - proved generically for any carrier, "
+              "every window length), inverse, division, ring identity and the num_modular::Reducer implementation preserve the "
+              "representation invariant raw = (x mod m) << shift and return the residue the mathematics demands; every call into "
+              "num-modular meets that function's precondition. The calls into num-modular are no longer contracts: div_rem_2by1 / "
+              "div_rem_3by2 are C02's word-by-word transcriptions of the Moller-Granlund reciprocal divisions (proved exact under the "
+              "normalisation precondition) and invm is transcribed here (extended Euclid through subm / mulm / negm) and proved equal to "
+              "the specification's inverse, so reduce, + - * neg dbl sqr ==, pow in every ring and inv in the one- and two-word rings "
+              "hold with NO hypothesis on an external function (C13_nm_*); inv / division in the multi-word ring assume only the contract "
+              "of dashu's gcd_ext. (2) Word level for the multi-word ring (ReducedLarge = word list of the modulus' length): is_valid "
+              "characterises exactly the reduced forms; add_in_place, sub_in_place(_swap), dbl_in_place, negate_in_place, residue, one "
+              "and == on word lists, built from C02's carry / borrow kernels, return for all word lists exactly what the value-level "
+              "model returns (debug assertions included); mul_normalized, sqr_normalized, mul_in_place (with its squaring shortcut) and "
+              "the sliding-window pow on word lists are proved with the REAL kernels plugged in - C01's as-is models of mul::multiply / "
+              "sqr::sqr (thresholds of the source) and C02's as-is model of div::div_rem_in_place with num-modular's div_rem_3by2 as "
+              "transcribed - for every word size >= 8. (3) The extracted 64-bit model the oracle runs is proved equal to the "
+              "specification for all inputs. The model is tied to the code by a correspondence run against the OCaml extraction.")
+LEVEL_NOTE = ("Trusted: Coq kernel, extraction (FastZ.v directives), zarith, harness. Still by contract only: dashu's multi-word extended gcd "
+              "(gcd_ext_word / gcd_ext_dword / gcd_ext_in_place: Lehmer) behind inv / division of the multi-word ring, and - inside "
+              "C02's division theorem used by the word-level mul / pow - add_signed_mul(c, Negative, a, b) on an accumulator longer than "
+              "the product (contract_mul_sub). At value level only (no word lists): the one- and two-word rings (machine integers), "
+              "ConstLargeDivisor::rem_large / rem_repr, inv_large's buffer handling, the Reducer impl. Primitive machine arithmetic "
+              "(u128 widening multiplication, %, shifts) is taken at its mathematical meaning. Compared only (not proved): that the Rust "
+              "code is what the models transcribe - 12000 generated + corpus cases per run against specification and as-is model.")
+TECHNIQUE = "Coq proof of value-level and word-level as-is models (representation invariant, refinement, generic windowed exponentiation, num-modular transcribed) + extracted-spec correspondence run"
 RULE = ("cases = operation (every call form: by value / by reference / assigning, ConstDivisor::new / from_word / from_dword, UBig / IBig / "
         "every primitive type, Reducer trait) x modulus from {1, 2, 2^k, 2^k+-1 at k = 63, 64, 65, 127, 128, 129, word-aligned and "
         "unaligned single / double / multi-word (3..33 words), even multi-word, low words zero} x operands of both signs from "
         "{0, +-1, m-1, m, m+1, multiples of m, a + b = m, a = b, 0..2n+2 words in the usual bit patterns} x exponents "
-        "{0, 1, 2, 3, one word, 2^64-1, 2^64, two words, 3..5 words; all-ones / single bit / sparse / random}. "
+        "{0, 1, 2, 3, one word, 2^64-1, 2^64, two words, 3..5 words; all-ones / single bit / sparse / random}; plus (40 % of the cases) "
+        "the boundary classes built from the structure of the modulus, for each of the six ring classes (one / two / 3..33 words, with "
+        "and without normalisation shift): m = p*q with the lengths of p and q adding up to the length of m (whole-word and arbitrary "
+        "splits) and operands p*j, q*k (raw product exactly m, 2m, ...; off by one factor), m = p^2 with operand p (sqr, x*x, pow), "
+        "a + b = m + d, a - b = d, 2a = m + d for d in {-1, 0, 1}, k*m + d for multipliers of every size and both signs, powers of "
+        "m-1 / 0 / 1, and m = g*q, a = g*r for common factors g of every shape (small, one word, 2^64k+1, x*2^64+1, x*2^128+1, other "
+        "low words, all ones, low words zero, random multi-word) with the residue 1, 2, 3+ words long (the three extended-gcd branches) - "
+        "each through Reduced and through the Reducer trait, each operand also as a negative / larger representative of its residue. "
         "A case is non-trivial when the oracle evaluated the Coq specification on it; distinct = distinct case texts.")
-EXPLANATION = ("Theorems (coq/props/C13.v, 33 pinned): for every word size >= 2 and every modulus m >= 1 the as-is model of "
+EXPLANATION = ("Theorems (coq/props/C13.v, 56 pinned): for every word size >= 2 and every modulus m >= 1 the as-is model of "
                "ConstDivisor::new/reduce/residue, + - * neg dbl sqr ==, pow, inv, div and of the Reducer impl returns the residue the "
                "mathematics demands (representation invariant raw = (x mod m) << shift preserved by every operation, residues in [0, m), "
                "inverse exactly for units, division = div_spec, different rings panic, no debug assertion of dashu or num-modular "
-               "precondition can fire) given the value-level contracts of the external kernels (externals_ok); binary and sliding-window "
-               "exponentiation are proved for any carrier closed under a power relation; the extracted 64-bit model the oracle runs is "
-               "proved equal to the specification for all inputs (C13_run_*); the pre-repair models of F01-F03 stay refuted. "
+               "precondition can fire) - stated once over abstract external functions with their contracts (externals_ok) and once with "
+               "num-modular's div_rem_2by1 / div_rem_3by2 / invm transcribed and proved (C13_nm_*: no hypothesis except, for the "
+               "multi-word inverse, the contract of gcd_ext); the word-level layer (C13_words_*) proves ReducedLarge::is_valid, the "
+               "carry / borrow kernels, mul_normalized / sqr_normalized and the sliding-window pow on word lists against the value-level "
+               "model with C01's multiplication and C02's division models plugged in; binary and sliding-window exponentiation are "
+               "proved for any carrier closed under a power relation; the extracted 64-bit model the oracle runs is proved equal to the "
+               "specification for all inputs (C13_run_*); the pre-repair models of F01-F03 stay refuted (F03 also at word level). "
                "Tie to the code: every operation of the harness is compared with the extracted specification (verdict) and with "
                "the extracted as-is model (fidelity statistic) on generated inputs.")
 TRUSTED_BASE = [
     "Coq 8.16.1 kernel (coqc; vm_compute only in closed Examples)",
     "extraction: ExtrOcamlBasic + ExtrOcamlZBigInt + the Extract Constant directives of coq/extract/FastZ.v",
     "OCaml 4.13.1 + zarith 1.12, oracle/common.ml, oracle/driver_c13.ml; Rust harness harness/src/bin/c13.rs",
-    "contracts (section variables / value-level definitions) for num-modular div_rem_2by1, div_rem_3by2, invm and for dashu's multi-word "
-    "kernels mul::multiply, sqr::sqr, div::div_rem_in_place, div::fast_rem_by_normalized_word/dword, gcd::gcd_ext_* (subjects of C01/C02/C12)",
-    "the model is at value level: word-list layout, buffer capacities and the memory allocator are not modelled",
+    "contract (hypothesis gcd_ext_ok) for dashu's multi-word extended gcd gcd::gcd_ext_word / gcd_ext_dword / gcd_ext_in_place, used by inv / division "
+    "of the multi-word ring only; contract_mul_sub (C02's DivContracts.v: add_signed_mul(c, Negative, a, b) on a longer accumulator) inside the "
+    "division theorem the word-level mul / sqr / pow theorems use",
+    "that the Gallina transcriptions (ModRingModel.v, ModRingWords.v, ModRingNumModular.v; C01's RingMul.v, C02's DivWordModel.v / DivNumModular.v) "
+    "say what the Rust sources say - checked by the correspondence run only; primitive machine arithmetic at its mathematical meaning",
+    "word lists are modelled for the multi-word ring's arithmetic; buffer capacities, the memory allocator, rem_large / inv_large buffers and the "
+    "one- and two-word rings' machine words are at value level",
 ]
 ASSUMPTIONS = [
     "UBig::from_words / as_words / IBig::from_parts transport values faithfully (used by the harness instead of any parser)",
